@@ -1,36 +1,226 @@
 /- driver ops for property C06 (model side of the correspondence) -/
 import Rsa.Core.Wire
+import Rsa.Core.Stats
 import Rsa.Gen.C06
 
-open Lean Rsa.Wire
+open Lean Rsa.Wire Rsa.Stats
 
 namespace Rsa.Drv.C06
 
 /-- `_dual_bootstrap` on one triple of variances, exact arithmetic -/
-def dual (j : Json) : R Json := do
+def dualOp (j : Json) : R Json := do
   let v ← fld j "v" >>= asList asRat
   let nr ← asOpt asRat (fldD j "n_rdm" Json.null)
   let np ← asOpt asRat (fldD j "n_pattern" Json.null)
-  match v, nr, np with
-  | [v0, v1, v2], some nr, some np => pure (ofRat (Rsa.Gen.C06.dualBootstrapN v0 v1 v2 nr np))
-  | [v0, v1, v2], _, _ => pure (ofRat (Rsa.Gen.C06.dualBootstrap v0 v1 v2))
-  | _, _, _ => throw "need three variances"
+  match v with
+  | [v0, v1, v2] => pure (ofRat (dual nr np v0 v1 v2))
+  | _ => throw "need three variances"
 
 /-- `_correct_1d` on one variance -/
 def correct1d (j : Json) : R Json := do
   let v ← fld j "v" >>= asRat
   let nr ← asOpt asRat (fldD j "n_rdm" Json.null)
   let np ← asOpt asRat (fldD j "n_pattern" Json.null)
-  match np, nr with
-  | some np, some nr => pure (ofRat (Rsa.Gen.C06.correct1dBoth v np nr))
-  | some np, none => pure (ofRat (Rsa.Gen.C06.correct1dPattern v np))
-  | none, some nr => pure (ofRat (Rsa.Gen.C06.correct1dRdm v nr))
-  | none, none => pure (ofRat (Rsa.Gen.C06.correct1dNone v))
+  pure (ofRat (correct np nr v))
+
+/-- `pairwise_contrast(np.arange(m))` -/
+def contrastOp (j : Json) : R Json := do
+  let m ← fld j "m" >>= asNat
+  pure (ofList (ofList ofInt) (pairwiseContrast (α := Int) m))
+
+/-! nested arrays -/
+
+inductive Nd (α : Type) where
+  | leaf : Option α → Nd α
+  | node : Array (Nd α) → Nd α
+
+partial def parseNd {α : Type} (f : Json → R α) (j : Json) : R (Nd α) :=
+  match j with
+  | .arr xs => do
+      let ys ← xs.mapM (parseNd f)
+      pure (.node ys)
+  | .null => pure (.leaf none)
+  | x => do
+      let v ← f x
+      pure (.leaf (some v))
+
+/-- element at a multi-index; out of range / too shallow / too deep is `none` -/
+def Nd.get {α : Type} : Nd α → List Nat → Option α
+  | n, [] => match n with
+    | .leaf x => x
+    | .node _ => none
+  | n, i :: is => match n with
+    | .leaf _ => none
+    | .node xs => if h : i < xs.size then Nd.get xs[i] is else none
+
+section ops
+variable {α : Type} [Add α] [Sub α] [Mul α] [Div α] [Neg α] [Zero α] [One α] [NatCast α]
+  [LT α] [DecidableLT α] [LE α] [DecidableLE α] [Max α] [Min α]
+
+def matFn (nd : Nd α) : Nat → Nat → α := fun i j => (nd.get [i, j]).getD 0
+def vecFn (nd : Nd α) : Nat → α := fun i => (nd.get [i]).getD 0
+def mat3Fn (nd : Nd α) (k : Nat) : Nat → Nat → α := fun i j => (nd.get [k, i, j]).getD 0
+
+def ofVars (out : α → Json) (v : Vars α) : Json :=
+  obj [("model", ofList out v.model), ("diff", ofList out v.diff),
+       ("nc", ofList (fun p => ofList out [p.1, p.2]) v.nc)]
+
+/-- `extract_variances(variance, nc_included, n_rdm, n_pattern)`; `m` = number of models -/
+def extractVars (nd : Nd α) (ndim m : Nat) (nc : Bool) (nr np : Option α) : R (Vars α) :=
+  match ndim with
+  | 0 => pure (extract1 m nc (fun _ => (nd.get []).getD 0) np nr)
+  | 1 => pure (extract1 m nc (vecFn nd) np nr)
+  | 2 => pure (extract2 m nc (matFn nd) np nr)
+  | 3 => pure (extract3 m nc (mat3Fn nd 0) (mat3Fn nd 1) (mat3Fn nd 2) nr np)
+  | _ => throw "variance must have 0..3 dimensions"
+
+def extractOp (inp : Json → R α) (out : α → Json) (j : Json) : R Json := do
+  let nd ← fld j "var" >>= parseNd inp
+  let ndim ← fld j "ndim" >>= asNat
+  let m ← fld j "m" >>= asNat
+  let nc ← fld j "nc" >>= asBool
+  let nr ← asOpt inp (fldD j "n_rdm" Json.null)
+  let np ← asOpt inp (fldD j "n_pattern" Json.null)
+  let v ← extractVars nd ndim m nc nr np
+  pure (ofVars out v)
+
+end ops
+
+/-! Float-valued ops -/
+
+def evalsFn (nd : Nd Float) : Evals Float := fun r j idx => nd.get (r :: j :: idx)
+
+def epsF : Float := Float.ofScientific 2220446049250313 true 31   -- 2.220446049250313e-16
+
+def ofOptF : Option Float → Json := ofOpt ofFloat
+
+def listFn (l : List Float) : Nat → Float := fun i => l.getD i 0
+
+/-- the t statistics of `t_tests` (as `|squareform(t)|`), `t_test_0` (`t`), `t_test_nc`
+    (`|t|`) for given effects and variances -/
+def tStatsJson (m : Nat) (e : List (Option Float)) (v : Vars Float) (ncMean : Option Float) : Json :=
+  let ok := e.all Option.isSome
+  let ef : Nat → Float := fun i => (e.getD i none).getD 0
+  if !ok then obj [("pair", Json.null), ("zero", Json.null), ("nc", Json.null)] else
+  let pair := (List.range m).map (fun i => (List.range m).map (fun k =>
+    absG (tPairMat epsF m ef v.diff i k)))
+  let zero := (List.range m).map (fun i => tZero epsF ef (listFn v.model) i)
+  let ncv := listFn (v.nc.map (·.1))
+  let nc := match ncMean with
+    | some c => ofList ofFloat ((List.range m).map (fun i => absG (tNc epsF ef ncv c i)))
+    | none => Json.null
+  obj [("pair", ofList (ofList ofFloat) pair), ("zero", ofList ofFloat zero), ("nc", nc)]
+
+/-- everything a `Result` reports for the t-test: variances, SEM, means, t statistics -/
+def resultOp (j : Json) : R Json := do
+  let nd ← fld j "evals" >>= parseNd asFloat
+  let nB ← fld j "nB" >>= asNat
+  let m ← fld j "m" >>= asNat
+  let shape ← fld j "shape" >>= asList asNat
+  let cv ← fld j "cv_method" >>= asStr
+  let E := evalsFn nd
+  let means ←
+    if cv == "fixed" || cv == "crossvalidation" then
+      match shape with
+      | [n] => pure (getMeansFixed nB m n E)
+      | _ => throw "fixed / crossvalidation evaluations are 3-D"
+    else pure (getMeansBoot nB m shape E)
+  let eff := (List.range m).map (effect nB shape E)
+  let base := [("means", ofList ofOptF means), ("effects", ofList ofOptF eff)]
+  let vj := fldD j "var" Json.null
+  if vj.isNull then
+    pure (obj (base ++ [("vars", Json.null)]))
+  else do
+    let vnd ← parseNd asFloat vj
+    let ndim ← fld j "ndim" >>= asNat
+    let lastDim ← fld j "last_dim" >>= asNat
+    let nr ← asOpt asFloat (fldD j "n_rdm" Json.null)
+    let np ← asOpt asFloat (fldD j "n_pattern" Json.null)
+    let ncLow ← asList (asOpt asFloat) (fldD j "nc_lower" (Json.arr #[]))
+    let v ← extractVars vnd ndim m (ncIncluded ndim lastDim m) nr np
+    let sem := v.model.map getSem
+    pure (obj (base ++ [("vars", ofVars ofFloat v), ("sem", ofList ofFloat sem),
+      ("t", tStatsJson m eff v (nanMean ncLow))]))
+
+/-- the three bootstrap tests on (collapsed) bootstrap evaluations -/
+def bootOp (j : Json) : R Json := do
+  let nd ← fld j "evals" >>= parseNd asFloat
+  let nB ← fld j "nB" >>= asNat
+  let m ← fld j "m" >>= asNat
+  let shape ← fld j "shape" >>= asList asNat
+  let E := evalsFn nd
+  let c : Nat → Nat → Option Float := cell shape E
+  let ltb : Float → Float → Bool := fun a b => a < b
+  let eqb : Float → Float → Bool := fun a b => a == b
+  let leb : Float → Float → Bool := fun a b => a ≤ b
+  let pair := (List.range m).map (fun i => (List.range m).map (fun k =>
+    bootPairMat ltb eqb nB m c i k))
+  let base := [("pair", ofList (ofList ofFloat) pair)]
+  -- zero / noise-ceiling tests exist for 2-D evaluations only
+  if !shape.isEmpty then pure (obj base) else do
+    let zero := (List.range m).map (fun i => bootOneSided leb nB (fun r => c r i) (fun _ => some 0))
+    let ncj := fldD j "nc_rows" Json.null
+    if ncj.isNull then pure (obj (base ++ [("zero", ofList ofFloat zero)])) else do
+      let ncRows ← asList (asOpt asFloat) ncj
+      -- a single value is broadcast over the rows
+      let ref : Nat → Option Float := fun r =>
+        if ncRows.length = 1 then ncRows.getD 0 none else ncRows.getD r none
+      let nc := (List.range m).map (fun i => bootOneSided leb nB ref (fun r => c r i))
+      pure (obj (base ++ [("zero", ofList ofFloat zero), ("nc", ofList ofFloat nc)]))
+
+/-- the per-model subject vectors the rank-sum tests hand to `wilcoxon` -/
+def ranksumOp (j : Json) : R Json := do
+  let nd ← fld j "evals" >>= parseNd asFloat
+  let nB ← fld j "nB" >>= asNat
+  let m ← fld j "m" >>= asNat
+  let n ← fld j "n" >>= asNat
+  let E := evalsFn nd
+  pure (ofList (ofList ofOptF) ((List.range m).map (ranksumData nB n E)))
+
+/-- `eval_fixed` from the per-subject evaluations `x[model][subject]` on -/
+def fixedOp (j : Json) : R Json := do
+  let nd ← fld j "x" >>= parseNd asFloat
+  let m ← fld j "m" >>= asNat
+  let n ← fld j "n" >>= asNat
+  let ncLow ← asOpt asFloat (fldD j "nc_lower" Json.null)
+  let x : Nat → Nat → Float := fun i s => (nd.get [i, s]).getD 0
+  let v := fixedVars m n x
+  let eff := (List.range m).map (fun i => some (meanN n (x i)))
+  let cov := (List.range m).map (fun i => (List.range m).map (fun k => fixedCov n x i k))
+  pure (obj [("cov", ofList (ofList ofFloat) cov), ("vars", ofVars ofFloat v),
+    ("sem", ofList ofFloat (v.model.map getSem)),
+    ("dof", ofInt (Rsa.Gen.C06.fixedDof n)),
+    ("means", ofList ofOptF eff), ("t", tStatsJson m eff v ncLow)])
+
+/-- variances a `Result` built by an evaluation function must report for its stored covariance:
+    corrected with the count(s) of the resampled factor(s) only -/
+def evaluatorOp (j : Json) : R Json := do
+  let cv ← fld j "cv" >>= asStr
+  let vnd ← fld j "var" >>= parseNd asFloat
+  let ndim ← fld j "ndim" >>= asNat
+  let lastDim ← fld j "last_dim" >>= asNat
+  let m ← fld j "m" >>= asNat
+  let nRdm ← fld j "n_rdm" >>= asFloat
+  let nCond ← fld j "n_cond" >>= asFloat
+  match resampledOf cv with
+  | none => throw s!"unknown cv_method {cv}"
+  | some f =>
+    let ns := evaluatorNs f nRdm nCond
+    let v ← extractVars vnd ndim m (ncIncluded ndim lastDim m) ns.1 ns.2
+    pure (obj [("vars", ofVars ofFloat v), ("sem", ofList ofFloat (v.model.map getSem))])
 
 def handle : Handler := fun op j =>
   match op with
-  | "c06.dual" => some (dual j)
+  | "c06.dual" => some (dualOp j)
   | "c06.correct1d" => some (correct1d j)
+  | "c06.contrast" => some (contrastOp j)
+  | "c06.extract" => some (extractOp asRat ofRat j)
+  | "c06.extractf" => some (extractOp asFloat ofFloat j)
+  | "c06.result" => some (resultOp j)
+  | "c06.boot" => some (bootOp j)
+  | "c06.ranksum" => some (ranksumOp j)
+  | "c06.fixed" => some (fixedOp j)
+  | "c06.evaluator" => some (evaluatorOp j)
   | _ => none
 
 end Rsa.Drv.C06
